@@ -691,6 +691,40 @@ func prune(fn *ssa.Function) {
 	fn.Blocks = keep
 }
 
+// constCond: a condition whose value does not depend on anything — a boolean constant, `nil == nil` (a helper that only
+// ever returns nil, tested by its caller), a negation of such.
+func constCond(v ssa.Value, depth int) (val bool, known bool) {
+	if depth > 4 {
+		return false, false
+	}
+	switch x := v.(type) {
+	case *ssa.Const:
+		if x.Value != nil && x.Value.Kind() == constant.Bool {
+			return constant.BoolVal(x.Value), true
+		}
+	case *ssa.UnOp:
+		if x.Op == token.NOT {
+			if b, ok := constCond(x.X, depth+1); ok {
+				return !b, true
+			}
+		}
+	case *ssa.BinOp:
+		if x.Op == token.EQL || x.Op == token.NEQ {
+			cx, okx := x.X.(*ssa.Const)
+			cy, oky := x.Y.(*ssa.Const)
+			if okx && oky && cx.Value == nil && cy.Value == nil && !isBasic(cx.Type()) && !isBasic(cy.Type()) {
+				return x.Op == token.EQL, true
+			}
+		}
+	}
+	return false, false
+}
+
+func isBasic(t types.Type) bool {
+	_, ok := t.Underlying().(*types.Basic)
+	return ok
+}
+
 // foldConstIfs turns `if true/false` (a boolean parameter that became a constant where the callee was expanded) into a
 // jump; the edge not taken disappears together with the phi operands that came along it.
 func foldConstIfs(fn *ssa.Function) {
@@ -702,12 +736,12 @@ func foldConstIfs(fn *ssa.Function) {
 		if !ok {
 			continue
 		}
-		c, ok := iff.Cond.(*ssa.Const)
-		if !ok || c.Value == nil || c.Value.Kind() != constant.Bool {
+		val, known := constCond(iff.Cond, 0)
+		if !known {
 			continue
 		}
 		taken, other := b.Succs[0], b.Succs[1]
-		if !constant.BoolVal(c.Value) {
+		if !val {
 			taken, other = other, taken
 		}
 		if taken == other {
